@@ -10,29 +10,35 @@ META = {
     "engine": "E1+E2+E3+E5",
     "text": "Coq theorems over an executable model of babylon::Serialization (scalars, enum, string, vector/list/"
             "array/set/map, unique_ptr/shared_ptr, BABYLON_SERIALIZABLE aggregates with field numbers and base "
-            "classes) on top of a model of protobuf's CodedInputStream (window up to the innermost limit, PushLimit/"
-            "PopLimit, varint reads that fail with or without consuming): for every type of the universe and every "
-            "well-formed value the predicted size is the number of bytes written, parsing the written bytes into a "
-            "fresh object gives the value back (smart pointers to empty encodings come back null), a parser never "
-            "sees bytes outside its limit, unknown fields of every wire type are skipped, absent fields keep their "
-            "defaults, field order is irrelevant, and whatever a successful parse of arbitrary bytes returns "
-            "serializes and parses back to itself.  Tag shift/mask, varint size formula, the size==0 skip tests, "
-            "unknown-field skip widths and the vector loop condition are regenerated from the sources on every "
-            "run.  Tie: ~40 C++ types instantiating the real templates run on random typed values (extremes "
-            "weighted), mutated encodings and raw bytes through flat array / string / chunked stream +- limit, in a "
-            "debug, an NDEBUG and an ASan+UBSan build, and must agree with the extracted model on success flag, "
-            "value, re-serialised bytes and predicted size; protoc-generated messages with the same schema check "
-            "wire compatibility both ways.",
+            "classes) on top of a model of protobuf's CodedInputStream (the window up to the innermost limit, "
+            "PushLimit/PopLimit, varint reads that fail with or without consuming).  Proved for all types/values of "
+            "the universe: predicted size = bytes written; for everything but hash containers: parsing the written "
+            "bytes into a fresh object returns the value (smart pointers to empty encodings come back null), in debug "
+            "and NDEBUG builds; for every aggregate schema: any sequence, in any order, of encodings of distinct known "
+            "fields and unknown fields of every wire type parses to the defaults updated at exactly the fields "
+            "present (unknown skipped, absent keep defaults, order irrelevant).  Tag shift/mask, varint size "
+            "formula, the size==0 skip tests, unknown-field skip widths and the vector loop condition are "
+            "regenerated from the sources on every run.  Tie: ~40 C++ types instantiating the real templates run "
+            "on random typed values (extremes weighted), mutated encodings, crafted prefixes and raw bytes through "
+            "flat array / string / chunked stream +- limit, in a debug and an NDEBUG+ASan+UBSan build, and must "
+            "agree with the extracted model on success flag, value, re-serialised bytes and predicted size; "
+            "monitors check the property text directly (round trip, exact size, success => stable, presentation "
+            "independence, no crash/sanitizer report); protoc-generated messages with the same schema check wire "
+            "compatibility both ways, with unknown fields, shuffled fields and absent fields.",
     "note": "Trusted: Coq kernel; translator; extraction (ExtrOcamlBasic) + ocaml/se_driver.ml; the C++ harness; "
-            "protobuf's CodedInputStream/CodedOutputStream and generated messages (modelled/used as oracle, not "
-            "verified); std containers.  Not modelled: sizes >= 2^31, recursion depth, the text printer, the "
-            "name-keyed Serializer registry; hash containers are modelled as duplicate-free insertion-ordered "
-            "lists (iteration order of the real ones is canonicalised by sorting).  The full round-trip/termination "
-            "statements are false of the code as it is and are kept as *_refuted theorems with replayed witnesses "
-            "(see KNOWN_FINDINGS): null pointers to scalars inside containers vanish, a top-level container on a "
-            "stream without limit parses to empty (vector<float>: terminate), >=10 continuation bytes where a "
-            "length prefix is expected make container parsers loop forever, and a re-used aggregate serializes a "
-            "stale cached member size.",
+            "protobuf's CodedInputStream/CodedOutputStream and generated messages (modelled / used as oracle, not "
+            "verified); std containers.  Not proved (correspondence + monitors only): success of a parse of "
+            "arbitrary bytes => stable; round trip through set/map; equality of the wire format with protobuf's "
+            "encoder.  Not modelled: sizes >= 2^31, size caches (mutable members), the text printer, the name-keyed "
+            "Serializer registry; hash containers are duplicate-free insertion-ordered lists (iteration order of the "
+            "real ones is canonicalised by sorting).  No byte outside the limit is visible to a parser by "
+            "construction of the stream model; memory safety of the real code is checked by the sanitizer runs.  "
+            "The full round-trip/termination statements are false of the code as it is and are kept as *_refuted "
+            "theorems with witnesses replayed on the real classes (KNOWN_FINDINGS): null pointers to scalars inside "
+            "containers vanish; a top-level vector on a stream without limit parses to empty (vector<float>: "
+            "terminate); >= 10 continuation bytes where a length prefix is expected, or a length prefix beyond the "
+            "end of an unlimited stream, make container parsers loop forever; a re-used aggregate serializes a stale "
+            "cached member size.",
 }
 
 # ------------------------------------------------------------------ type family (must mirror c11_serialization.cpp)
@@ -373,12 +379,76 @@ def cont_run(hx):
 
 
 def kv(line):
+    line = line.rstrip()
+    if line.endswith(" |"):
+        line += " "
     obs, _, mon = line.partition(" | ")
     d = {}
     for w in re.finditer(r"(\w+)=((?:[01]:)?(?:\[.*?\](?= \w+=|$)|\S*))", obs):
         d[w.group(1)] = w.group(2)
     m = dict(x.split("=") for x in mon.split() if "=" in x)
     return d, m
+
+
+def sha_files(paths, extra=""):
+    import hashlib
+    h = hashlib.sha1(extra.encode())
+    for q in paths:
+        try:
+            h.update(q.encode() + b"\0" + open(q, "rb").read())
+        except OSError:
+            h.update(b"missing:" + q.encode())
+    return h.hexdigest()
+
+
+def build_cached(chk, name, srcs, lib, flags):
+    """compile each source to an object (-MMD), link; re-used only if the content of every dependency under
+    REPO / harness / generated code, the archive and the flags are unchanged (content hash, not mtimes)"""
+    exe = os.path.join(BUILD, "bin", name)
+    stamp = exe + ".stamp"
+    os.makedirs(os.path.dirname(exe), exist_ok=True)
+    key = " ".join(vlib.CXXFLAGS + list(flags) + vlib.LDFLAGS + [vlib.CXX])
+
+    def relevant(deps, old_repo):
+        out = []
+        for d_ in deps:
+            if old_repo and d_.startswith(old_repo + "/"):
+                d_ = vlib.REPO + d_[len(old_repo):]
+            if d_.startswith(vlib.REPO + "/") or d_.startswith(VERIF + "/"):
+                out.append(d_)
+        return sorted(set(out))
+
+    if os.path.exists(exe) and os.path.exists(stamp):
+        try:
+            st = json.load(open(stamp))
+            deps = relevant(st["deps"], st["repo"])
+            if st["hash"] == sha_files(deps + [lib], key):
+                return exe
+        except (ValueError, KeyError, OSError):
+            pass
+    objs, alldeps, procs = [], [], []
+    import subprocess
+    for i, src in enumerate(srcs):
+        o = "%s.%d.o" % (exe, i)
+        objs.append(o)
+        cmd = [vlib.CXX] + vlib.CXXFLAGS + ["-I" + os.path.join(VERIF, "harness")] + list(flags) + \
+              ["-MMD", "-MF", o + ".d", "-c", src, "-o", o]
+        procs.append((src, o, subprocess.Popen(cmd, stdout=subprocess.PIPE, stderr=subprocess.PIPE, text=True)))
+    for src, o, pr in procs:
+        out, err = pr.communicate()
+        if pr.returncode != 0:
+            chk.broke("harness", "compile %s (%s)" % (os.path.basename(src), name), err[-3000:])
+            return None
+        txt = open(o + ".d").read().replace("\\\n", " ")
+        alldeps += [os.path.abspath(x) for x in txt.split(":", 1)[1].split()]
+    link_flags = [f for f in flags if f.startswith("-fsanitize")]
+    rc, out, err = sh([vlib.CXX] + objs + [lib, "-o", exe] + link_flags + vlib.LDFLAGS, timeout=600)
+    if rc != 0:
+        chk.broke("harness", "link " + name, err[-3000:])
+        return None
+    deps = relevant(alldeps, None)
+    json.dump({"repo": vlib.REPO, "deps": deps, "hash": sha_files(deps + [lib], key)}, open(stamp, "w"))
+    return exe
 
 
 def main(argv):
@@ -402,24 +472,32 @@ def main(argv):
         if not lib:
             return None
         if kind == "debug":
-            return chk.build_cpp("c11_serialization", srcs, objs=[lib], flags=["-I" + gen])
-        if kind == "ndebug":
-            return chk.build_cpp("c11_serialization_nd", srcs, objs=[lib], flags=["-I" + gen, "-DNDEBUG", "-O0"])
-        return chk.build_cpp("c11_serialization_asan",
-                             srcs + [os.path.join(vlib.REPO, "src/babylon/serialization/traits.cpp")], objs=[lib],
-                             flags=["-I" + gen, "-O0", "-fsanitize=address,undefined",
-                                    "-fno-sanitize-recover=undefined", "-fno-omit-frame-pointer"])
+            return build_cached(chk, "c11_serialization", srcs, lib, ["-I" + gen])
+        # NDEBUG (no wire-type check of known fields) + ASan/UBSan; traits.cpp instrumented too
+        return build_cached(chk, "c11_serialization_nd_asan",
+                            srcs + [os.path.join(vlib.REPO, "src/babylon/serialization/traits.cpp")], lib,
+                            ["-I" + gen, "-DNDEBUG", "-fsanitize=address,undefined", "-fno-sanitize=null,nonnull-attribute",
+                             "-fno-sanitize-recover=undefined", "-fno-omit-frame-pointer"])
 
     with concurrent.futures.ThreadPoolExecutor(max_workers=4) as ex:
-        futs = {k: ex.submit(build, k) for k in ("debug", "ndebug", "asan")}
+        futs = {k: ex.submit(build, k) for k in ("debug", "ndebug")}
         chk.coq("Properties_C11.v", timeout=1500)
         model = chk.extract("se", "Extract_se.v", "se_driver.ml")
         for k, f in futs.items():
             impls[k] = f.result()
     impl = impls.get("debug")
+    chk.log("builds ready")
+    asan_env = dict(os.environ, C11_NO_RLIMIT="1", C11_ALARM="30",
+                    ASAN_OPTIONS="detect_leaks=0:abort_on_error=0:allocator_may_return_null=1:hard_rss_limit_mb=1500",
+                    UBSAN_OPTIONS="print_stacktrace=1:halt_on_error=1")
 
     tys = {n: parse_ty(d.split()) for n, d in TYPES.items()}
     shapes = {n: parse_ty(d.split()) for n, d in SHAPES.items()}
+
+    def top_fp_vec(ty):
+        while ty[0] in ("up", "sp"):
+            ty = ty[1]
+        return ty[0] == "vec" and ty[1] in (("s", "f32"), ("s", "f64"))
 
     # ---------------------------------------------------------------- cases
     vcases, rcases, ccases, dcases = [], [], [], []   # dicts
@@ -435,11 +513,11 @@ def main(argv):
         elif k == "D":
             dcases.append({"id": "d0", "type": r["type"], "hex": r["hex"]})
     else:
-        nv = 14 if not thorough else 120
+        nv = 8 if not thorough else 100
         i = 0
         for name in list(TYPES) + list(SHAPES):
             ty = tys.get(name) or shapes[name]
-            n = nv * (3 if ty[0] == "agg" else 1) if ty[0] != "s" else max(8, nv // 2)
+            n = nv * (3 if ty[0] == "agg" else 1) if ty[0] != "s" else max(6, nv // 2)
             for _ in range(n):
                 vcases.append({"id": "v%d" % i, "type": name,
                                "val": show(gen_val(rng, ty, 0, name in ("cobj", "csub")))})
@@ -449,7 +527,7 @@ def main(argv):
             ty = tys.get(name) or shapes[name]
             v1 = gen_val(rng, ty)
             rcases.append({"id": "r%d" % j, "type": name, "val1": show(v1), "val2": show(empty_like(rng, ty, v1))})
-        for j in range(40 if not thorough else 400):
+        for j in range(30 if not thorough else 400):
             ccases.append({"id": "c%d" % j, "mask": rng.below(2 ** 31) | (rng.below(2) << 30), "seed": rng.below(2 ** 31),
                            "val": show(gen_val(rng, tys["cobj"], 0, True))})
     chk.log("%d value cases, %d re-use cases, %d protobuf cases" % (len(vcases), len(rcases), len(ccases)))
@@ -461,27 +539,28 @@ def main(argv):
         res = chk.run_cases(model, lines, timeout=900)
         for cid, l in res.items():
             menc[cid] = kv(l)[0] if " enc=" in l else {"error": l}
-    by_id = {c["id"]: c for c in vcases}
 
     def classify_rt(name):
         return "null-scalar-ptr-in-container-lost" if packed_scalar_ptr(tys.get(name) or shapes[name]) else "roundtrip"
 
     # ---------------------------------------------------------------- value cases on the implementation
-    probes = []          # (case, line) the model predicts not to return
+    probes = []          # (case, harness line, why) the model predicts not to return
     ivals = {}
     if impl and vcases:
         lines = []
         for c in vcases:
             m = menc.get(c["id"], {})
-            unl = "1"
-            if m.get("rtu", "").startswith("3") or m.get("rtu", "").startswith("2"):
-                unl = "0"
-                probes.append((c, "%s V %s 1 %s ; %s" % (c["id"], c["type"], c["val"], m.get("enc", "")), "unlimited"))
-            lines.append("%s V %s %s %s ; %s" % (c["id"], c["type"], unl, c["val"], m.get("enc", "")))
+            pmask = 63
+            ty = tys.get(c["type"]) or shapes[c["type"]]
+            if m.get("rtu", "")[:1] in ("2", "3") or top_fp_vec(ty):
+                pmask = 19   # presentations without any limit would not return (predicted by the model)
+                probes.append((c, "%s V %s 63 %s ; %s" % (c["id"], c["type"], c["val"], m.get("enc", "")), "unlimited"))
+            lines.append("%s V %s %d %s ; %s" % (c["id"], c["type"], pmask, c["val"], m.get("enc", "")))
         ivals = chk.run_cases(impl, lines, timeout=900)
+    chk.log("value cases run")
     nontrivial = set()
     validated = 0
-    second = []          # model decodes what the implementation wrote (hash containers: different order)
+    second = []          # model decodes what the implementation / protobuf wrote
     for c in vcases:
         l = ivals.get(c["id"])
         if l is None:
@@ -494,8 +573,7 @@ def main(argv):
             continue
         d, mon = kv(l)
         m = menc.get(c["id"])
-        orig = canon_res(ty, "1:" + c["val"])
-        expect = orig
+        expect = canon_res(ty, "1:" + c["val"])
         if m and "norm" in m:
             expect = canon_res(ty, "1:" + m["norm"])
         elif has_kind(ty, ("up", "sp")):
@@ -507,15 +585,15 @@ def main(argv):
             chk.violate("routes-differ", "serialize_to_string / to_array_with_cached_size / to_coded_stream of a %s "
                         "produce different bytes (value %s)" % (name, c["val"][:200]), rep)
         if expect is not None:
-            for p in ("p0", "p1", "p2", "p3", "p4"):
+            for p in ("p0", "p1", "p4", "p2", "p3", "p5"):
+                if p not in d:
+                    continue
                 got = canon_res(ty, d.get(p))
                 if got != expect:
-                    flat = p in ("p0", "p1")
-                    if not flat and canon_res(ty, d.get("p0")) == expect:
-                        # only the stream-backed presentation without limit differs (p2/p3 have no limit either)
+                    if p in ("p2", "p3", "p5") and canon_res(ty, d.get("p0")) == expect:
                         sig = "unlimited-stream-toplevel-container-empty"
                         what = ("parse_from_coded_stream of a top-level %s on a stream-backed coded stream without "
-                                "limit: %s instead of %s" % (name, (got or "")[:120], expect[:120]))
+                                "limit (presentation %s): %s instead of %s" % (name, p, (got or "")[:120], expect[:120]))
                     else:
                         sig = classify_rt(name)
                         what = ("round trip of a %s through presentation %s yields %s instead of %s"
@@ -525,16 +603,19 @@ def main(argv):
         if m and "enc" in m:
             validated += 1
             hashy = has_kind(ty, ("set", "map"))
+            bad = None
             if not hashy and d.get("ser") != m["enc"]:
-                chk.broke("correspondence", "encode %s" % name, "value %s\nimpl : %s\nmodel: %s" % (c["val"][:300], d.get("ser"), m["enc"]))
-            if d.get("pred") != m["size"]:
-                chk.broke("correspondence", "size %s" % name, "value %s impl %s model %s" % (c["val"][:300], d.get("pred"), m["size"]))
-            if canon_res(ty, d.get("p0")) != canon_res(ty, m["rt"]):
-                chk.broke("correspondence", "parse(own bytes) %s" % name, "value %s\nimpl : %s\nmodel: %s" % (c["val"][:300], d.get("p0"), m["rt"]))
-            if canon_res(ty, d.get("pm")) != canon_res(ty, m["rt"]):
-                chk.broke("correspondence", "parse(model bytes) %s" % name, "value %s\nimpl : %s\nmodel: %s" % (c["val"][:300], d.get("pm"), m["rt"]))
-            if "pu" in d and canon_res(ty, d.get("pu")) != canon_res(ty, m["rtu"]):
-                chk.broke("correspondence", "parse on unlimited stream %s" % name, "value %s\nimpl : %s\nmodel: %s" % (c["val"][:300], d.get("pu"), m["rtu"]))
+                bad = ("encode", d.get("ser"), m["enc"])
+            elif d.get("pred") != m["size"]:
+                bad = ("size", d.get("pred"), m["size"])
+            elif canon_res(ty, d.get("p0")) != canon_res(ty, m["rt"]):
+                bad = ("parse(own bytes)", d.get("p0"), m["rt"])
+            elif canon_res(ty, d.get("pm")) != canon_res(ty, m["rt"]):
+                bad = ("parse(model bytes)", d.get("pm"), m["rt"])
+            elif "p5" in d and canon_res(ty, d.get("p5")) != canon_res(ty, m["rtu"]):
+                bad = ("parse on a stream without limit", d.get("p5"), m["rtu"])
+            if bad:
+                chk.broke("correspondence", "%s %s" % (bad[0], name), "value %s\nimpl : %s\nmodel: %s" % (c["val"][:300], bad[1], bad[2]))
             if hashy and d.get("ser") != m["enc"]:
                 second.append({"id": "s" + c["id"], "type": name, "hex": d.get("ser", ""), "expect": expect})
             if len(d.get("ser", "")) > 8:
@@ -580,11 +661,12 @@ def main(argv):
             else:
                 mv.append(list(dv))
             mv += [x if (c["mask"] >> (14 + i)) & 1 else [] for i, x in enumerate(v[15:])]
+            masked = canon_res(cobj, "1:" + show(mv))
             checks = [("s2m", want, "compat-struct-to-message", "a generated message parsing the struct's bytes reads"),
                       ("m2s", want, "compat-message-to-struct", "the struct parsing the message's bytes reads"),
                       ("unknown", want, "compat-unknown-fields-not-skipped", "with unknown fields of every wire type present the struct reads"),
                       ("shuffled", want, "compat-field-order-matters", "with the fields in another order the struct reads"),
-                      ("masked", canon_res(cobj, "1:" + show(mv)), "compat-absent-fields-lose-defaults", "with fields absent the struct reads")]
+                      ("masked", masked, "compat-absent-fields-lose-defaults", "with fields absent the struct reads")]
             for key, exp, sig, text in checks:
                 if canon_res(cobj, d.get(key)) != exp:
                     chk.violate(sig, "%s %s instead of %s" % (text, (d.get(key) or "")[:200], exp[:200]), rep)
@@ -593,55 +675,67 @@ def main(argv):
             if mon.get("mon_msgser") != "1" or mon.get("mon_msgparse") != "1":
                 chk.violate("compat-message-traits", "SerializeTraits<Message> size/serialize/parse disagree with the message's own", rep)
             second.append({"id": "s" + c["id"] + "a", "type": "cobj", "hex": d.get("msbytes", ""), "expect": want})
-            second.append({"id": "s" + c["id"] + "b", "type": "cobj", "hex": d.get("maskbytes", ""),
-                           "expect": canon_res(cobj, "1:" + show(mv))})
-            if d.get("ser") and menc is not None:
-                second.append({"id": "s" + c["id"] + "c", "type": "cobj", "hex": d.get("ser", ""), "expect": want})
+            second.append({"id": "s" + c["id"] + "b", "type": "cobj", "hex": d.get("maskbytes", ""), "expect": masked})
+    chk.log("re-use and protobuf cases run")
 
     # ---------------------------------------------------------------- hostile inputs
     if not chk.replay:
-        per = 6 if not thorough else 40
+        per = 3 if not thorough else 30
         k = 0
         for c in vcases:
             m = menc.get(c["id"])
-            if not m or "enc" not in m or c["type"] in ("cobj", "csub") and rng.chance(1, 2):
+            if not m or "enc" not in m:
                 continue
-            for _ in range(per if tys[c["type"]][0] != "s" else 2):
+            for _ in range(per if tys[c["type"]][0] != "s" else 1):
                 hx = mutate(rng, m["enc"])
-                if len(hx) <= 4000:
+                if len(hx) <= 3000:
                     dcases.append({"id": "d%d" % k, "type": c["type"], "hex": hx})
                     k += 1
-        for name in TYPES:
-            for hx in CRAFTED:
-                dcases.append({"id": "d%d" % k, "type": name, "hex": hx})
-                k += 1
-        for j, name in enumerate(SHAPES):
-            for hx in CRAFTED[:40]:
+        for name in list(TYPES) + list(SHAPES):
+            for hx in (CRAFTED if thorough or tys.get(name, ("agg",))[0] != "s" else CRAFTED[:12]):
                 dcases.append({"id": "d%d" % k, "type": name, "hex": hx})
                 k += 1
     dcases += second
     chk.log("%d byte-string cases" % len(dcases))
-    mres = {"0": {}, "1": {}}
+    mres = {"0": {}, "1": {}, "u": {}}
     if model and dcases:
-        for nd in ("0", "1"):
-            lines = ["%s D %s 0 %s ; %s" % (c["id"], nd, TYPES[c["type"]], c["hex"]) for c in dcases if c["type"] in TYPES]
-            mres[nd] = chk.run_cases(model, lines, timeout=1500)
-    builds = [("0", impl), ("1", impls.get("ndebug"))]
+        alll = []
+        for c in dcases:
+            if c["type"] in TYPES:
+                alll.append("%s/0 D 0 0 %s ; %s" % (c["id"], TYPES[c["type"]], c["hex"]))
+                alll.append("%s/1 D 1 0 %s ; %s" % (c["id"], TYPES[c["type"]], c["hex"]))
+                if "expect" not in c:
+                    alll.append("%s/u D 0 1 %s ; %s" % (c["id"], TYPES[c["type"]], c["hex"]))
+        for cid, l in chk.run_cases(model, alll, timeout=1500).items():
+            base, _, which = cid.partition("/")
+            mres[which][base] = l
+    chk.log("model parsed the byte strings")
+    builds = [("0", impl, None), ("1", impls.get("ndebug"), asan_env)]
     ires = {}
-    for nd, exe in builds:
+    for nd, exe, env in builds:
         if not exe or not dcases:
             continue
         lines = []
         for c in dcases:
             ml = mres[nd].get(c["id"], "")
+            ty = tys.get(c["type"]) or shapes[c["type"]]
             if " res=2" in ml or " res=3" in ml:
                 if nd == "0":
-                    probes.append((c, "%s D %s 0 %s" % (c["id"], c["type"], c["hex"]), "hostile"))
+                    probes.append((c, "%s D %s 1 %s" % (c["id"], c["type"], c["hex"]), "hostile"))
                 continue
-            lines.append("%s D %s 0 %s" % (c["id"], c["type"], c["hex"]))
-        ires[nd] = chk.run_cases(exe, lines, timeout=1500)
+            pmask = 31
+            mu = mres["u"].get(c["id"], "")
+            if top_fp_vec(ty) or " res=2" in mu or " res=3" in mu or " res=9" in mu or c["type"] in SHAPES:
+                pmask = 19
+                if " res=2" in mu and nd == "0":
+                    probes.append((c, "%s D %s 5 %s" % (c["id"], c["type"], c["hex"]), "unlimited-hostile"))
+            if nd == "1":
+                pmask = 19      # the model's prediction for streams without limit is computed for the debug build only
+            lines.append("%s D %s %d %s" % (c["id"], c["type"], pmask, c["hex"]))
+        ires[nd] = chk.run_cases(exe, lines, timeout=1500, env=env)
+        chk.log("byte strings parsed by the %s build" % ("NDEBUG+sanitizer" if nd == "1" else "debug"))
     ok_cases = 0
-    for nd, exe in builds:
+    for nd, exe, env in builds:
         for c in dcases:
             l = ires.get(nd, {}).get(c["id"])
             if l is None:
@@ -650,8 +744,12 @@ def main(argv):
             ty = tys.get(name) or shapes[name]
             rep = {"kind": "D", "type": name, "hex": c["hex"], "ndebug": nd}
             if " res=" not in l:
-                chk.violate("hostile-input-kills-process", "parsing %d bytes as %s (%s build) does not return: %s"
-                            % (len(c["hex"]) // 2, name, "NDEBUG" if nd == "1" else "debug", l[:300]), rep)
+                if "Sanitizer" in l or "runtime error" in l:
+                    chk.violate("hostile-input-memory-error", "parsing %s as %s under ASan+UBSan (NDEBUG): %s"
+                                % (c["hex"][:80], name, l[:400]), rep)
+                else:
+                    chk.violate("hostile-input-kills-process", "parsing %d bytes as %s (%s build) does not return: %s"
+                                % (len(c["hex"]) // 2, name, "NDEBUG" if nd == "1" else "debug", l[:300]), rep)
                 continue
             d, mon = kv(l)
             res = canon_res(ty, d.get("res"))
@@ -659,6 +757,8 @@ def main(argv):
                 chk.violate("compat-bytes-misread" if name == "cobj" else "roundtrip",
                             "%s parsed from bytes written for the same value reads %s instead of %s"
                             % (name, (res or "")[:160], c["expect"][:160]), rep)
+            ml = mres[nd].get(c["id"])
+            md = kv(ml)[0] if ml and " res=" in ml else {}
             if res.startswith("1:"):
                 ok_cases += 1
                 if d.get("serok") != "1" or str(len(d.get("reser", "")) // 2) != d.get("resize"):
@@ -667,70 +767,53 @@ def main(argv):
                 re_ = canon_res(ty, d.get("re"))
                 stable = re_ == res
                 if not stable and re_.startswith("1:") and has_kind(ty, ("up", "sp")):
-                    ml = mres[nd].get(c["id"], "")
-                    md = kv(ml)[0] if " res=" in ml else {}
+                    # a smart pointer to a value with an empty encoding may come back null
                     stable = "norm" in md and re_ == canon_res(ty, "1:" + md["norm"]) and canon_res(ty, md.get("res")) == res
                 if not stable:
                     chk.violate("success-not-stable" if not packed_scalar_ptr(ty) else "null-scalar-ptr-in-container-lost",
                                 "parse of %s as %s succeeds with %s but that value serializes and parses back to %s"
                                 % (c["hex"][:80], name, res[:120], (re_ or "")[:120]), rep)
-            if cont_run(c["hex"]) < 10:
-                for p in ("p1", "p2", "p3", "p4"):
-                    # p2/p3 have no enclosing limit: a top-level BytesUntilLimit()-driven container differs (known)
-                    if p in ("p2", "p3") and ty[0] == "vec":
-                        continue
-                    if canon_res(ty, d.get(p)) != res:
-                        chk.violate("presentation-dependent", "parse of %s as %s: flat array gives %s, presentation %s "
-                                    "gives %s" % (c["hex"][:80], name, res[:100], p, (d.get(p) or "")[:100]), rep)
-                        break
-            ml = mres[nd].get(c["id"])
+            run = cont_run(c["hex"])
+            for p in ("p1", "p4"):
+                if p in d and canon_res(ty, d.get(p)) != res and run < 10:
+                    chk.violate("presentation-dependent", "parse of %s as %s: flat array gives %s, presentation %s "
+                                "gives %s" % (c["hex"][:80], name, res[:100], p, (d.get(p) or "")[:100]), rep)
+                    break
             if ml is not None and name in TYPES:
                 if " res=" not in ml:
                     chk.broke("correspondence", "model driver", ml[:300])
                     continue
                 validated += 1
-                md = kv(ml)[0]
+                bad = None
                 if canon_res(ty, md.get("res")) != res:
-                    chk.broke("correspondence", "parse %s nd=%s" % (name, nd),
-                              "bytes %s\nimpl : %s\nmodel: %s" % (c["hex"][:300], d.get("res"), md.get("res")))
+                    bad = ("parse", d.get("res"), md.get("res"))
                 elif res.startswith("1:"):
                     hashy = has_kind(ty, ("set", "map"))
                     if (not hashy and md.get("reser") != d.get("reser")) or md.get("resize") != d.get("resize"):
-                        chk.broke("correspondence", "re-serialise %s" % name, "bytes %s\nimpl : %s %s\nmodel: %s %s"
-                                  % (c["hex"][:300], d.get("reser"), d.get("resize"), md.get("reser"), md.get("resize")))
+                        bad = ("re-serialise", "%s %s" % (d.get("reser"), d.get("resize")), "%s %s" % (md.get("reser"), md.get("resize")))
                     elif canon_res(ty, md.get("re")) != canon_res(ty, d.get("re")):
-                        chk.broke("correspondence", "re-parse %s" % name, "bytes %s\nimpl : %s\nmodel: %s"
-                                  % (c["hex"][:300], d.get("re"), md.get("re")))
+                        bad = ("re-parse", d.get("re"), md.get("re"))
                     nontrivial.add((name, c["hex"]))
+                mu = mres["u"].get(c["id"])
+                if not bad and mu and " res=" in mu and run < 10 and nd == "0":
+                    mud = kv(mu)[0]
+                    for p in ("p2", "p3"):
+                        if p in d and canon_res(ty, d.get(p)) != canon_res(ty, mud.get("res")):
+                            bad = ("parse on a stream without limit (%s)" % p, d.get(p), mud.get("res"))
+                if bad:
+                    chk.broke("correspondence", "%s %s nd=%s" % (bad[0], name, nd),
+                              "bytes %s\nimpl : %s\nmodel: %s" % (c["hex"][:300], bad[1], bad[2]))
             if len([b for b in chk.broken if b[0] == "correspondence"]) > 8:
                 break
-
-    # ---------------------------------------------------------------- sanitizer build: memory safety on every byte string
-    asan = impls.get("asan")
-    if asan and dcases:
-        env = dict(os.environ, ASAN_OPTIONS="detect_leaks=0:abort_on_error=0:allocator_may_return_null=1",
-                   UBSAN_OPTIONS="print_stacktrace=1:halt_on_error=1")
-        skip = set(c["id"] for c, _, _ in probes)
-        sel = [c for c in dcases if c["id"] not in skip]
-        if not thorough:
-            sel = sel[::2]
-        res = chk.run_cases(asan, ["%s D %s 0 %s" % (c["id"], c["type"], c["hex"]) for c in sel], timeout=1500, env=env)
-        for c in sel:
-            l = res.get(c["id"], "")
-            if " res=" not in l:
-                kind = "AddressSanitizer" if "AddressSanitizer" in l else ("runtime error" if "runtime error" in l else "crash")
-                chk.violate("hostile-input-memory-error", "parsing %s as %s under ASan+UBSan: %s: %s"
-                            % (c["hex"][:80], c["type"], kind, l[:300]), {"kind": "D", "type": c["type"], "hex": c["hex"]})
-        chk.notes["sanitizer_cases"] = len(sel)
 
     # ---------------------------------------------------------------- cases the model predicts not to return
     seen_probe = {}
     for c, line, why in probes:
         key = (c["type"], why)
-        if seen_probe.get(key, 0) >= 2 or not impl:
+        if seen_probe.get(key, 0) >= (1 if not thorough else 3) or not impl:
             continue
         seen_probe[key] = seen_probe.get(key, 0) + 1
-        rc, out, err = sh([impl], input=line + "\n", timeout=60, env=dict(os.environ, C11_PROBE="1"))
+        rc, out, err = sh([impl], input=line + "\n", timeout=60)
         returned = rc == 0 and (" res=" in out or " ser=" in out)
         if why == "unlimited":
             rep = {"kind": "V", "type": c["type"], "value": c["val"]}
@@ -740,18 +823,27 @@ def main(argv):
                             "terminates the process (rc=%d %s)" % (c["type"], rc, err.strip()[-120:]), rep)
             else:
                 chk.broke("correspondence", "model predicts no return, implementation returns", line[:300] + "\n" + out[:300])
+        elif why == "unlimited-hostile":
+            rep = {"kind": "D", "type": c["type"], "hex": c["hex"], "presentation": "stream without limit"}
+            if not returned:
+                chk.violate("unlimited-stream-truncated-container-never-terminates",
+                            "parsing %s as %s from a stream-backed coded stream without limit never returns (a length "
+                            "prefix pointing beyond the end of the stream: the element loop spins at end of input; rc=%d)"
+                            % (c["hex"][:80], c["type"], rc), rep)
+            else:
+                chk.broke("correspondence", "model predicts no return, implementation returns", line[:300] + "\n" + out[:300])
         else:
             rep = {"kind": "D", "type": c["type"], "hex": c["hex"]}
             if not returned:
                 chk.violate("overlong-length-prefix-never-terminates",
-                            "parsing %s as %s never returns (loop without progress until memory is exhausted / killed "
-                            "after 8 s: rc=%d %s)" % (c["hex"][:80], c["type"], rc, err.strip()[-100:]), rep)
+                            "parsing %s as %s never returns (loop without progress until memory is exhausted or the "
+                            "8 s alarm fires: rc=%d %s)" % (c["hex"][:80], c["type"], rc, err.strip()[-100:]), rep)
             else:
                 chk.broke("correspondence", "model predicts no return, implementation returns", line[:300] + "\n" + out[:300])
     chk.notes["probes"] = {"%s/%s" % k: v for k, v in seen_probe.items()}
     chk.notes["predicted_nonreturning_cases"] = len(probes)
 
-    total = len(vcases) * 6 + len(rcases) + len(ccases) * 5 + sum(len(v) for v in ires.values()) * 5
+    total = len(vcases) * 7 + len(rcases) + len(ccases) * 6 + sum(len(v) for v in ires.values()) * 5
     chk.cov["evaluations"] = total
     chk.cov["distinct_nontrivial"] = len(nontrivial)
     chk.cov["traces_validated_against_impl"] = validated
@@ -761,8 +853,8 @@ def main(argv):
                        "through flat array, string, 1-byte chunks, random chunks, chunks+limit, chunks without limit; "
                        "byte cases: mutations of those encodings (truncation, bit flips, huge/over-long lengths, runs of "
                        "continuation bytes, wrong wire types, unknown fields of every wire type, removed/duplicated "
-                       "pieces, trailing garbage), crafted prefixes and raw random bytes, on debug, NDEBUG and sanitizer "
-                       "builds; non-trivial = distinct (type, bytes) of more than 4 bytes compared with the model")
+                       "pieces, trailing garbage), crafted prefixes and raw random bytes, on a debug and an NDEBUG+ASan+"
+                       "UBSan build; non-trivial = distinct (type, bytes) of more than 4 bytes compared with the model")
     for c in vcases[:: max(1, len(vcases) // 3)][:3]:
         chk.sample({"case": c, "impl": (ivals.get(c["id"]) or "")[:400], "model": menc.get(c["id"])})
     for c in dcases[:: max(1, len(dcases) // 3)][:3]:
